@@ -81,6 +81,8 @@ class StatThresholdAnomaliser(CollectiveAnomalyDetector):
         """
         # This is the required output format for the rest of the code to work.
         segments = self.change_detector_.transform(X)["labels"]
+        # `X` can be a numpy array, which `pd.concat` does not accept.
+        X = pd.DataFrame(X, index=segments.index)
         df = pd.concat([X, segments], axis=1)
         anomalies = []
         for _, segment in df.reset_index(drop=True).groupby("labels"):
